@@ -41,6 +41,12 @@ import (
 // Close; the reproduction lives in TestVerifKF_C03_close_drops_queued.
 const kfC03CloseDropsQueued = "C03-close-drops-queued"
 
+// Two flushes of one measurement-hour that read the same clock value get the same
+// file name (generateStoragePath names files by wall-clock nanosecond only) and the
+// second overwrites the first. With a real clock this needs the same nanosecond,
+// so it shows up once in tens of thousands of concurrent histories.
+const kfC03FileNameCollision = "C03-file-name-collision"
+
 const c03MicroPerHour = int64(3600_000_000)
 
 var (
@@ -824,6 +830,12 @@ func TestVerifC03_ExactlyOncePerHour(t *testing.T) {
 			class := "flush-error"
 			if strings.Contains(runErr.Error(), "file-name collision") {
 				class = "file-name-collision"
+				if verifkit.Excluded(kfC03FileNameCollision) {
+					// recorded known finding: this history hit it (same-nanosecond
+					// file names); it is counted and not judged further
+					verifkit.CountExcluded(kfC03FileNameCollision)
+					t.Skip("known finding " + kfC03FileNameCollision)
+				}
 			}
 			t.Fatalf("VERIF-FAIL class=C03/%s %v\ncase=%v", class, runErr, c.summary(out))
 		}
@@ -942,4 +954,70 @@ func TestVerifKF_C03_close_drops_queued(t *testing.T) {
 	t.Log(detail)
 	verifkit.KnownFinding(kfC03CloseDropsQueued, reproduced,
 		"Close() with a flush task still queued (no WAL): "+detail)
+}
+
+
+// TestVerifKF_C03_file_name_collision: with the clock frozen (clock seam on
+// arrow_writer.go) two flushes of the same measurement and hour produce the same
+// storage path, so the second file replaces the first and acknowledged rows vanish.
+func TestVerifKF_C03_file_name_collision(t *testing.T) {
+	files, rows := c03FrozenClockFlushes(t)
+	detail := fmt.Sprintf("2 rows acknowledged in 2 flushes at one clock reading: %d file(s), %d row(s) stored", files, rows)
+	t.Log(detail)
+	verifkit.KnownFinding(kfC03FileNameCollision, rows < 2, detail)
+}
+
+// TestVerifC03_FrozenClockFlushes is the same scenario as a regular check: once
+// the finding is no longer listed as open, flushes that read one clock value must
+// still store every acknowledged row exactly once.
+func TestVerifC03_FrozenClockFlushes(t *testing.T) {
+	if verifkit.Excluded(kfC03FileNameCollision) {
+		verifkit.CountExcluded(kfC03FileNameCollision)
+		t.Skip("open known finding " + kfC03FileNameCollision)
+	}
+	files, rows := c03FrozenClockFlushes(t)
+	verifkit.Eval()
+	verifkit.Class("frozen-clock-flushes")
+	if rows != 2 {
+		t.Fatalf("VERIF-FAIL class=C03/file-name-collision 2 rows acknowledged in 2 flushes at one clock reading: %d file(s), %d row(s) stored", files, rows)
+	}
+}
+
+func c03FrozenClockFlushes(t *testing.T) (int, int) {
+	root, err := os.MkdirTemp("", "c03kf-col-*")
+	if err != nil {
+		t.Fatalf("tempdir: %v", err)
+	}
+	defer os.RemoveAll(root)
+	be, err := storage.NewLocalBackend(root, zerolog.Nop())
+	if err != nil {
+		t.Fatalf("backend: %v", err)
+	}
+	cfg := &config.IngestConfig{MaxBufferSize: 1000, MaxBufferAgeMS: 3_600_000, FlushWorkers: 1, FlushQueueSize: 16, ShardCount: 1}
+	buf := NewArrowBuffer(cfg, be, zerolog.Nop())
+	ctx := context.Background()
+	base := int64(1_700_000_000_000_000)
+	VerifSetClock(time.Date(2026, 1, 2, 3, 4, 5, 678, time.UTC))
+	for k := int64(0); k < 2; k++ {
+		if err := buf.WriteColumnarDirect(ctx, "db", "cpu", map[string][]interface{}{"time": {base + k}, "v": {k}}); err != nil {
+			VerifSetClock(time.Time{})
+			t.Fatalf("write: %v", err)
+		}
+		if err := buf.FlushAll(ctx); err != nil {
+			VerifSetClock(time.Time{})
+			t.Fatalf("flush: %v", err)
+		}
+	}
+	VerifSetClock(time.Time{})
+	_ = buf.Close()
+	db, err := c03Duck()
+	if err != nil {
+		t.Fatalf("duckdb: %v", err)
+	}
+	files := duck.FindParquet(root)
+	tb, err := duck.ReadParquet(db, files)
+	if err != nil {
+		t.Fatalf("read back: %v", err)
+	}
+	return len(files), len(tb.Rows)
 }
